@@ -413,6 +413,9 @@ def run(pid, build_replay):
                 bad_msg = msg[:-1]
             if bad_msg != msg:
                 cases.append((f"co {bad_msg.hex()} {','.join(show(e) for e in exps) or '-'}", tys, "ill-formed value bytes", exps, FAIL, {}, {}))
+        # no expected types at all: the message's own values come back (IDLArgs::from_bytes), whatever their types
+        if rnd.random() < 0.25:
+            cases.append((f"cu {msg.hex()} {','.join(show(t) for t in tys) or '-'}", tys, vals, tys, coerce_args(vals, tys, tys), {}, {}))
         # arbitrary damage (C06): one to three bytes changed, dropped or doubled anywhere in the message, header included.
         # Nothing is known about the result except that there is one: a value or an error, never a panic.
         if rnd.random() < 0.35:
@@ -511,7 +514,7 @@ def run(pid, build_replay):
             "samples": [],
             "bounded_standins": [{"functions": ["de.rs as a whole (untyped decoding at expected types): deserialize_with_type, argument sequencing, done(), "
                                                 "record / variant / option / vector coercion, IDLValue visitor; value.rs annotate_type + encoder for the way back"],
-                                  "bound": f"{len(cases)} seeded messages: 600 lists / trees of recursive types at 8 edited recursive expected types (with 0..2 further expected arguments that are missing on the wire and named: aliases of opt / null / reserved / nat / text), about 1400 messages damaged at random (one to three bytes changed, dropped or doubled anywhere: a value or an error is demanded, never a panic), about 1600 messages with one value byte made ill-formed (bool byte, opt tag, variant index, first byte of a text) or cut short -- an error is demanded whatever is expected, also in surplus arguments --, both entry points (from_bytes_with_types, from_bytes_with_types_with_config) must agree, the rest of 0..3 non-recursive arguments (types of depth <= 3 over nat, int, fixed-width ints, bool, text, null, "
+                                  "bound": f"{len(cases)} seeded messages: 600 lists / trees of recursive types at 8 edited recursive expected types (with 0..2 further expected arguments that are missing on the wire and named: aliases of opt / null / reserved / nat / text), about 1000 messages decoded with no expected types (their own values must come back), about 1400 messages damaged at random (one to three bytes changed, dropped or doubled anywhere: a value or an error is demanded, never a panic), about 1600 messages with one value byte made ill-formed (bool byte, opt tag, variant index, first byte of a text) or cut short -- an error is demanded whatever is expected, also in surplus arguments --, both entry points (from_bytes_with_types, from_bytes_with_types_with_config) must agree, the rest of 0..3 non-recursive arguments (types of depth <= 3 over nat, int, fixed-width ints, bool, text, null, "
                                            f"reserved, opt, vec, record, variant), expected types = the argument types after 0..3 random edits; "
                                            f"{nfail} of them have no coercion (an error is demanded)",
                                   "vectors": len(cases), "disagreements": len(failures), "labelled": "bounded, NOT proved",
